@@ -141,7 +141,11 @@ def _judge_one(case, kind, wi, acc):
             if haslink or depth:
                 acc.sig(mon_graph.shape(s), min(ext, 3), kind, len(sel) if sel else 0, ext_same_id)
             try:
-                c = w.clone() if kind == 'clone' else w.subtree(sel if len(sel) > 1 or case['sel_as_list'] else sel[0])
+                form = 'none' if kind == 'clone' else (case.get('sel_form') or ('list' if len(sel) > 1 or case['sel_as_list'] else 'single'))
+                arg = {'none': lambda: None, 'list': lambda: list(sel), 'tuple': lambda: tuple(sel), 'single': lambda: sel[0] if len(sel) == 1 else list(sel),
+                       'generator': lambda: (x for x in sel), 'filter': lambda: filter(lambda x: True, sel),
+                       'tasklist': lambda: w.tasks(lambda t, ids={id(x) for x in sel}: id(t) in ids) if _dfs_ordered(w, sel) else list(sel)}[form]()
+                c = w.clone() if kind == 'clone' else w.subtree(arg)
             except Exception as e:
                 acc.violation(f'C10/{kind}-raised-{type(e).__name__}', f'{kind} raised {type(e).__name__}: {str(e)[:100]}', one)
                 continue
@@ -178,6 +182,12 @@ def _judge_one(case, kind, wi, acc):
                 acc.violation(f'C10/{kind}/wbs-attributes', f'WBS attributes {got[2]} vs source {before[2]}', one)
             # independence tail
             _tail(case, w, c, acc, one, kind)
+
+
+def _dfs_ordered(w, sel):
+    order = [id(t) for t in w.tasks]
+    pos = [order.index(id(x)) for x in sel]
+    return pos == sorted(pos)
 
 
 def _outside(u, mid, ignore_unknown=False):
@@ -278,7 +288,8 @@ def gen_case(rnd, tier='quick'):
         s = snap(u)
     tail = [[rnd.choice(TAIL_OPS), rnd.randrange(50), rnd.randrange(50)] for _ in range(rnd.randint(4, 8))]
     return {'kind': 'clone', 'spec': spec, 'attrs': attrs, 'wattrs': wattrs, 'ops': ops, 'kinds': ['clone', 'subtree'],
-            'sel': [[rnd.randrange(50) for _ in range(rnd.randint(1, 3))] for _ in range(3)], 'sel_as_list': rnd.random() < 0.7, 'tail': tail}
+            'sel': [[rnd.randrange(50) for _ in range(rnd.randint(1, 3))] for _ in range(3)], 'sel_as_list': rnd.random() < 0.7, 'tail': tail,
+            'sel_form': rnd.choice([None, None, 'list', 'tuple', 'generator', 'filter', 'tasklist'])}
 
 
 def run_shard(prop, tier, seed, shard, nshards, budget, acc):
